@@ -9,17 +9,18 @@ SPEC = dict(
     n=dict(quick=700, thorough=42000),
     modes=["c38", "c38deg", "c38param"],
     rtol=1e-9, atol=1e-12,
-    rule="per mode, VERIF_SEED-derived: mode c38 cycles through the 14 element kinds (TwoPointLinearSpring/Damper/ConstantForce, "
+    rule="per mode, VERIF_SEED-derived: mode c38 cycles through the 15 element kinds (TwoPointLinearSpring/Damper/ConstantForce, CableSpring tension law on a straight path, "
          "ConstantForce/Torque, MobilityLinearSpring/Damper/ConstantForce/DiscreteForce/LinearStop, GlobalDamper, UniformGravity, "
          "Gravity with exclusions, LinearBushing) on random trees of 1-4 bodies (Free/Pin/Slider/Ball, random frames, random q,u), "
          "random parameters; c38deg = coincident stations; c38param = 20 kinds of parameter/enable/exclusion change between two "
          "realizations compared with a fresh State; distinct = distinct input records",
-    partial="Force::Thermostat, Force::Custom and CableSpring are not modelled; LinearBushing's Euler-angle extraction (libm atan2) "
-            "is taken from the implementation (getQ) and only checked for consistency with the model's own R_FM; "
-            "UniformGravity's potential energy matches the documentation only for zeroHeight=0 or |g|=1 "
-            "(theorem uniformGravity_pe_eq_doc_partial; shown finding UniformGravity.zeroHeight.pe_eq_doc); "
-            "the clause 'changes take effect at the next realization' is proved for the abstract force-cache model "
-            "(param_change_effective_next_realize) and checked per element on the implementation (P lines)",
+    partial="Force::Thermostat and Force::Custom are not modelled; CableSpring: the tension/energy/power-loss law on the path length is "
+            "modelled and proved (cable_law_eq_doc), the path geometry (straight path only in the harness) is CablePath's (C45); "
+            "LinearBushing's Euler-angle extraction (libm atan2) is taken from the implementation (getQ) and only checked for "
+            "consistency with the model's own R_FM; the clause 'changes take effect at the next realization' is proved for the abstract "
+            "force-cache model (param_change_effective_next_realize) and checked per element on the implementation (P lines of mode "
+            "c38param, 20 kinds of change); UniformGravity's PE: the pinned tree deviated from the documentation (fixed in /repo 5f9a9c23; "
+            "uniformGravity_pe_eq_doc is now unconditional, the P line UniformGravity.zeroHeight.pe_eq_doc keeps watching it)",
     assumptions=["libm sqrt/cos/sin are trusted (sqrt enters the model as a function parameter)",
                  "the 'documented law' definitions (doc* in SimbodyModel/ForceLaws.lean) are a hand transcription of the header comments"],
 )
